@@ -19,6 +19,7 @@ import (
 	"fmt"
 
 	"golang.org/x/net/http2"
+	"golang.org/x/net/http2/hpack"
 )
 
 // queuedFrame stores frames that belong to a stream and need to be kept in order. The need for
@@ -83,7 +84,12 @@ type queuedHeaderFrame struct {
 	streamID  uint32
 	endStream bool
 	priority  http2.PriorityParam
-	chunks    [][]byte
+	headers   []hpack.HeaderField
+
+	// encode compresses headers and splits the block into frame payloads. The compression context is
+	// shared by all the streams of a connection, the block must be encoded when the frame is written,
+	// in wire order, not when it is queued: a queued frame may be overtaken by frames of other streams.
+	encode func(headers []hpack.HeaderField, firstChunkOverhead uint32) ([][]byte, error)
 }
 
 func (f *queuedHeaderFrame) StreamID() uint32 {
@@ -95,19 +101,31 @@ func (*queuedHeaderFrame) flowControlSize() int {
 }
 
 func (f *queuedHeaderFrame) send(dest *http2.Framer) error {
+	// Padding is not implemented because the extra security is not needed for a development proxy.
+	// If it were used, a single padding length octet should be deducted from the max header fragment
+	// length.
+	var overhead uint32
+	if !f.priority.IsZero() {
+		overhead = headersPriorityMetadataLength
+	}
+	chunks, err := f.encode(f.headers, overhead)
+	if err != nil {
+		return fmt.Errorf("encoding headers %v: %w", f.headers, err)
+	}
+
 	if err := dest.WriteHeaders(http2.HeadersFrameParam{
 		StreamID:      f.streamID,
-		BlockFragment: f.chunks[0],
+		BlockFragment: chunks[0],
 		EndStream:     f.endStream,
-		EndHeaders:    len(f.chunks) <= 1,
+		EndHeaders:    len(chunks) <= 1,
 		PadLength:     0,
 		Priority:      f.priority,
 	}); err != nil {
 		return fmt.Errorf("sending header %v: %w", f, err)
 	}
-	for i := 1; i < len(f.chunks); i++ {
-		headersEnded := i == len(f.chunks)-1
-		if err := dest.WriteContinuation(f.streamID, headersEnded, f.chunks[i]); err != nil {
+	for i := 1; i < len(chunks); i++ {
+		headersEnded := i == len(chunks)-1
+		if err := dest.WriteContinuation(f.streamID, headersEnded, chunks[i]); err != nil {
 			return fmt.Errorf("sending header continuations %v: %w", f, err)
 		}
 	}
@@ -117,21 +135,17 @@ func (f *queuedHeaderFrame) send(dest *http2.Framer) error {
 func (f *queuedHeaderFrame) String() string {
 	var buf bytes.Buffer // strings.Builder is not available on App Engine.
 	fmt.Fprintf(&buf, "header[id=%d, endStream=%t", f.streamID, f.endStream)
-	fmt.Fprintf(&buf, ", priority=%v, chunk lengths=[", f.priority)
-	for i, c := range f.chunks {
-		if i > 0 {
-			fmt.Fprintf(&buf, ",")
-		}
-		fmt.Fprintf(&buf, "%d", len(c))
-	}
-	fmt.Fprintf(&buf, "]]")
+	fmt.Fprintf(&buf, ", priority=%v, fields=%d]", f.priority, len(f.headers))
 	return buf.String()
 }
 
 type queuedPushPromiseFrame struct {
 	streamID  uint32
 	promiseID uint32
-	chunks    [][]byte
+	headers   []hpack.HeaderField
+
+	// encode: see queuedHeaderFrame.
+	encode func(headers []hpack.HeaderField, firstChunkOverhead uint32) ([][]byte, error)
 }
 
 func (f *queuedPushPromiseFrame) StreamID() uint32 {
@@ -143,18 +157,23 @@ func (*queuedPushPromiseFrame) flowControlSize() int {
 }
 
 func (f *queuedPushPromiseFrame) send(dest *http2.Framer) error {
+	chunks, err := f.encode(f.headers, pushPromiseMetadataLength)
+	if err != nil {
+		return fmt.Errorf("encoding push promise headers %v: %w", f.headers, err)
+	}
+
 	if err := dest.WritePushPromise(http2.PushPromiseParam{
 		StreamID:      f.streamID,
 		PromiseID:     f.promiseID,
-		BlockFragment: f.chunks[0],
-		EndHeaders:    len(f.chunks) <= 1,
+		BlockFragment: chunks[0],
+		EndHeaders:    len(chunks) <= 1,
 		PadLength:     0,
 	}); err != nil {
 		return fmt.Errorf("sending push promise %v: %w", f, err)
 	}
-	for i := 1; i < len(f.chunks); i++ {
-		headersEnded := i == len(f.chunks)-1
-		if err := dest.WriteContinuation(f.streamID, headersEnded, f.chunks[i]); err != nil {
+	for i := 1; i < len(chunks); i++ {
+		headersEnded := i == len(chunks)-1
+		if err := dest.WriteContinuation(f.streamID, headersEnded, chunks[i]); err != nil {
 			return fmt.Errorf("sending push promise continuations %v: %w", f, err)
 		}
 	}
@@ -164,14 +183,7 @@ func (f *queuedPushPromiseFrame) send(dest *http2.Framer) error {
 func (f *queuedPushPromiseFrame) String() string {
 	var buf bytes.Buffer
 	fmt.Fprintf(&buf, "push promise[streamID=%d, promiseID= %d", f.streamID, f.promiseID)
-	fmt.Fprintf(&buf, ", chunk lengths=[")
-	for i, c := range f.chunks {
-		if i > 0 {
-			fmt.Fprintf(&buf, ",")
-		}
-		fmt.Fprintf(&buf, "%d", len(c))
-	}
-	fmt.Fprintf(&buf, "]]")
+	fmt.Fprintf(&buf, ", fields=%d]", len(f.headers))
 	return buf.String()
 }
 
